@@ -18,7 +18,7 @@ def write_env(driver, consts):
     import subprocess
     out = subprocess.run([driver], input="DUMP\n", stdout=subprocess.PIPE, stderr=subprocess.DEVNULL,
                          env=dict(os.environ, MASSCANNED_VERIF="1"), text=True, timeout=120).stdout
-    txt = out.replace("@@END\n", "")
+    txt = "".join(l + "\n" for l in out.replace("@@END\n", "").splitlines() if not l.startswith("const "))
     for k, v in consts.items():
         txt += "const %s %s\n" % (k, v.hex())
     write_if_changed(ENVFILE, txt)
